@@ -119,7 +119,7 @@ def run(case: dict) -> Result:
     rr = RealRun(case)
     sim = rr.make()
     with EngineProbe(log_deliveries=True, instant_cap=50000, total_cap=200000) as p:
-        status = p.run(sim)
+        status = p.run(sim, (lambda: _drive_with_injections(rr, sim, case)) if case.get("inject") else None)
     if status != "completed":
         if status == "spin":
             res.add("frozen-clock", "Simulation", "finite-program", detail=str(p.spin))
@@ -216,6 +216,53 @@ def run(case: dict) -> Result:
     return res
 
 
+def _drive_with_injections(rr, sim, case):
+    """Pause before the first event, step to each injection point, create + schedule the events
+    from outside the run loop (the way a user of the control surface would), then resume."""
+    ctl = sim.control
+    ctl.pause()
+    sim.run()
+    done = 0
+    for inj in sorted(case["inject"], key=lambda i: i["after"]):
+        need = inj["after"] - done
+        if need > 0:
+            if not ctl.is_paused:
+                break
+            ctl.step(need)
+            done = inj["after"]
+        if not ctl.is_paused or ctl.get_state().events_processed != inj["after"]:
+            break
+        now = sim._clock.now.nanoseconds
+        sim.schedule([rr._mk(s, now + s["dt"]) for s in inj["events"]])
+    while ctl.is_paused:
+        ctl.resume()
+
+
+def _gen_inject(rng: random.Random, tier: str) -> dict:
+    """Programs plus events created and scheduled while the run is paused (ties with pending run-created events)."""
+    from hsverif.proggen import _evspec
+
+    prog = gen_program(rng, futures=False, hooks=False, max_pre=12)
+    ref = run_reference(prog, exact_overshoot=True)
+    n = ref.processed
+    inj = []
+    for _ in range(rng.randrange(1, 4)):
+        k = rng.randrange(0, max(1, n))
+        evs = [_evspec(rng, prog["n_ent"], rng.randrange(0, 3), set(), allow_past=False) for _ in range(rng.randrange(1, 4))]
+        for e in evs:
+            e["dt"] = rng.choice([0, 0, 0, 1, 999, 1_000_000])
+            e["handle"] = None
+        inj.append({"after": k, "events": evs})
+    # at most one injection per point keeps creation order unambiguous
+    seen, out = set(), []
+    for i in sorted(inj, key=lambda i: i["after"]):
+        if i["after"] not in seen:
+            seen.add(i["after"])
+            out.append(i)
+    prog["inject"] = out
+    return prog
+
+
 def compare_ok(res: Result) -> bool:
     return not any(v.oracle in ("tie-order", "time-order", "missing-delivery", "extra-delivery", "cancelled-delivered") for v in res.violations)
 
@@ -250,9 +297,10 @@ def _gen_boundary(rng: random.Random, tier: str) -> dict:
 FAMILIES = {
     "programs": Family("programs", gen, run, shrink=shrink_program, case_timeout=30.0),
     "boundary": Family("boundary", _gen_boundary, run, shrink=shrink_program, case_timeout=30.0),
+    "inject": Family("inject", _gen_inject, run, case_timeout=30.0),
 }
 
 BUDGET = {
-    "quick": {"programs": 3000, "boundary": 600},
-    "thorough": {"programs": 150000, "boundary": 30000},
+    "quick": {"programs": 3000, "boundary": 600, "inject": 600},
+    "thorough": {"programs": 150000, "boundary": 30000, "inject": 30000},
 }
